@@ -6,6 +6,7 @@ CONSTANTS
   BinOps <- MC_OpsBlocks
   Maps <- MC_MapsLines
   OnePairs <- MC_PairsDeep
+  Routes = {}
   MaxUnits = 6
   MinUnits = 0
   MaxDepth = 1
